@@ -1,17 +1,17 @@
-(* C08 (audit round 2) — gcc's treatment of a bit-field that extends over an eightbyte boundary.
+(* C08 (audit round 2) — bit-fields that extend over an eightbyte boundary, and the rule c2mir had
+   before /repo 21222098 (fixes/C08-9).
 
    A named bit-field never crosses an eightbyte of the classified argument (its storage unit is
    aligned, and so is every aggregate containing it).  An UNNAMED bit-field does not raise the
    alignment of its struct, so inside a member aggregate placed at an offset that is not a multiple
    of its unit it can: struct { int i; struct { char c; long : 40; } s; float f; } has the unnamed
-   bit-field in bytes 5..9.  gcc (classify_argument: "for (i = first eightbyte; i < last + 1; i++)
-   classes[i] = merge (INTEGER, classes[i])") gives INTEGER to every eightbyte the bit-field
-   touches; SysVClassify.sv_level and c2mir's classify_fields only to the one holding its first bit.
+   bit-field in bytes 5..9.  gcc gives INTEGER to every eightbyte the bit-field touches
+   (SysVClassify.merge_span), and so does the repaired classify_fields (CClassify.qmerge_span): the
+   C08 classification theorems are about these.
 
-   [sysv_classify_g] is the gcc-faithful specification; [straddles] the executable test for such a
-   bit-field; without one the two specifications coincide, so every C08 classification theorem
-   holds against [sysv_classify_g] under the extra guard [no_straddle]; with one, c2mir (as audited)
-   deviates: [classify_gcc_refuted] (fixes/C08-9.patch).                                           *)
+   Kept here: the OLD rule ([classify_arg_head]: INTEGER only for the eightbyte of the first bit),
+   the executable test [straddles] for such a bit-field, the proof that the old rule is the repaired
+   one wherever no bit-field straddles, and the witness on which it deviated from gcc.           *)
 From Coq Require Import ZArith List Bool Lia ZifyBool.
 From MirV Require Import C08.CLayout C08.SysVLayout C08.CClassify C08.SysVClassify
   C08.WalkProofs C08.StepProofs C08.MemberProofs C08.AggProofs C08.LayoutProofs C08.ClassifyProofs
@@ -19,156 +19,154 @@ From MirV Require Import C08.CLayout C08.SysVLayout C08.CClassify C08.SysVClassi
 Import ListNotations.
 Local Open Scope Z_scope.
 
-(* INTEGER for the eightbyte of the first bit and, if different, the eightbyte of the last bit
-   (a bit-field is at most 64 bits wide: it touches at most two) *)
-Definition merge_span (bit w : Z) (e : ebs) : ebs :=
-  let q0 := bit / 64 in
-  let q1 := (bit + w - 1) / 64 in
-  let e1 := merge_at q0 INTEGER e in
-  if q1 =? q0 then e1 else merge_at q1 INTEGER e1.
-
-Definition sv_level_g (rec : ty -> Z -> ebs -> option ebs) (base : Z) :=
-  fix level (ms : list (mkind * ty)) (rs : list mrec) (e : ebs) : option ebs :=
+(* classify_fields before the fix: qword = (member_offset * 8 + bit_offset) / 64 only *)
+Definition cf_members_head (rec : ty -> Z -> qtypes -> option qtypes) (offset : Z) :=
+  fix go (ms : list (mkind * ty)) (rs : list mrec) (sub : qtypes) : option qtypes :=
     match ms, rs with
     | (mk, mt) :: ms', r :: rs' =>
-        match mk with
-        | MBits w _ =>
-            level ms' rs' (if w =? 0 then e else merge_span ((base + m_off r) * 8 + m_bit r) w e)
-        | _ => match rec mt (base + m_off r) e with
-               | None => None
-               | Some e' => level ms' rs' e'
-               end
-        end
-    | _, _ => Some e
+        let member_offset := m_off r + offset in
+        if m_bit r <? 0 then
+          match rec mt member_offset sub with
+          | None => None
+          | Some sub' => go ms' rs' sub'
+          end
+        else if m_width r =? 0 then go ms' rs' sub
+        else go ms' rs' (qmerge ((member_offset * 8 + m_bit r) / 64) CInt sub)
+    | _, _ => Some sub
     end.
 
-Fixpoint sv_merge_into_g (t : ty) (base : Z) (acc : ebs) : option ebs :=
+Fixpoint classify_fields_head (t : ty) (offset : Z) (ts : qtypes) : option qtypes :=
   match t with
-  | TBasic KFloat | TBasic KDouble => Some (merge_at (base / 8) SSE acc)
-  | TBasic KLDouble => Some (merge_at (base / 8 + 1) X87UP (merge_at (base / 8) X87 acc))
-  | TBasic _ | TPtr | TEnum _ _ => Some (merge_at (base / 8) INTEGER acc)
-  | TFlex _ => Some acc
+  | TBasic KLDouble => Some (qmerge (offset / 8 + 1) CX87up (qmerge (offset / 8) CX87 ts))
+  | TBasic k => Some (qmerge (offset / 8) (if is_fp k then CSse else CInt) ts)
+  | TPtr | TEnum _ _ => Some (qmerge (offset / 8) CInt ts)
+  | TFlex _ => Some ts
   | TArr n el =>
-      let sz := sv_size (sysv_layout el) in
-      if sz =? 0 then Some acc
-      else fold_left (fun a i => match a with
-                                 | None => None
-                                 | Some e => sv_merge_into_g el (base + Z.of_nat i * sz) e
-                                 end) (seq 0 (Z.to_nat n)) (Some acc)
+      let el_size := type_size (c2m_layout el) in
+      if el_size =? 0 then Some ts
+      else fold_left (fun acc i => match acc with
+                                   | None => None
+                                   | Some ts => classify_fields_head el (offset + Z.of_nat i * el_size) ts
+                                   end)
+                     (seq 0 (Z.to_nat n)) (Some ts)
   | TAgg u ms =>
-      match sv_level_g sv_merge_into_g base ms (sv_mems (sysv_layout t)) (NO_CLASS, NO_CLASS) with
+      match cf_members_head classify_fields_head offset ms (mems (c2m_layout t)) (CNo, CNo) with
       | None => None
-      | Some e => match cleanup e with None => None | Some e => Some (merge2 e acc) end
+      | Some sub => level_cleanup sub ts
       end
   end.
 
-Definition sysv_classify_g (t : ty) : option (list sclass) :=
-  let size := sv_size (sysv_layout t) in
-  let n := (size + 7) / 8 in
-  if (2 <? n) || (n =? 0) then None
-  else match sv_merge_into_g t 0 (NO_CLASS, NO_CLASS) with
-       | None => None
-       | Some e =>
-           let l := firstn (Z.to_nat n) [fst e; snd e] in
-           match cleanup (fst e, if n =? 1 then NO_CLASS else snd e) with
-           | None => None
-           | Some _ => Some l
-           end
-       end.
+Definition classify_arg_head (t : ty) : option (list cls) :=
+  let size := type_size (c2m_layout t) in
+  let n_qwords := (size + 7) / 8 in
+  if is_aggregate t then
+    if (2 <? n_qwords) || (n_qwords =? 0) then None
+    else
+      match classify_fields_head t 0 (CNo, CNo) with
+      | None => None
+      | Some ts =>
+          let l := firstn (Z.to_nat n_qwords) [fst ts; snd ts] in
+          if existsb (cls_eqb CMem) l then None
+          else match l with
+          | CX87up :: _ => None
+          | [c0; CX87up] => if cls_eqb c0 CX87 then Some l else None
+          | _ => Some (map (fun c => if cls_eqb c CNo then CInt else c) l)
+          end
+      end
+  else classify_arg t.
 
-(* does some bit-field of [t], laid at byte [base] of the argument, touch two eightbytes? *)
-Definition straddles_level (rec : ty -> Z -> bool) (base : Z) :=
-  fix level (ms : list (mkind * ty)) (rs : list mrec) : bool :=
+(* does some bit-field of [t], laid at byte [offset] of the argument, touch two eightbytes?
+   (walks c2mir's own member records exactly as classify_fields does) *)
+Definition straddles_level (rec : ty -> Z -> bool) (offset : Z) :=
+  fix go (ms : list (mkind * ty)) (rs : list mrec) : bool :=
     match ms, rs with
     | (mk, mt) :: ms', r :: rs' =>
-        match mk with
-        | MBits w _ =>
-            (negb (w =? 0) &&
-             negb (((base + m_off r) * 8 + m_bit r + w - 1) / 64 =? ((base + m_off r) * 8 + m_bit r) / 64))
-            || level ms' rs'
-        | _ => rec mt (base + m_off r) || level ms' rs'
-        end
+        let member_offset := m_off r + offset in
+        if m_bit r <? 0 then rec mt member_offset || go ms' rs'
+        else if m_width r =? 0 then go ms' rs'
+        else negb ((member_offset * 8 + m_bit r + m_width r - 1) / 64 =? (member_offset * 8 + m_bit r) / 64)
+             || go ms' rs'
     | _, _ => false
     end.
 
-Fixpoint straddles (t : ty) (base : Z) : bool :=
+Fixpoint straddles (t : ty) (offset : Z) : bool :=
   match t with
   | TArr n el =>
-      let sz := sv_size (sysv_layout el) in
-      if sz =? 0 then false
-      else existsb (fun i => straddles el (base + Z.of_nat i * sz)) (seq 0 (Z.to_nat n))
-  | TAgg u ms => straddles_level straddles base ms (sv_mems (sysv_layout t))
+      let el_size := type_size (c2m_layout el) in
+      if el_size =? 0 then false
+      else existsb (fun i => straddles el (offset + Z.of_nat i * el_size)) (seq 0 (Z.to_nat n))
+  | TAgg u ms => straddles_level straddles offset ms (mems (c2m_layout t))
   | _ => false
   end.
 
 Definition no_straddle (t : ty) : bool := negb (straddles t 0).
 
-Lemma merge_span_same bit w e : (bit + w - 1) / 64 = bit / 64 -> merge_span bit w e = merge_at (bit / 64) INTEGER e.
-Proof. intros H. unfold merge_span. rewrite H, Z.eqb_refl. reflexivity. Qed.
+Lemma qmerge_span_same bit w ts : (bit + w - 1) / 64 = bit / 64 -> qmerge_span bit w ts = qmerge (bit / 64) CInt ts.
+Proof. intros H. unfold qmerge_span. rewrite H, Z.eqb_refl. reflexivity. Qed.
 
-Lemma level_g_eq (rg r_ : ty -> Z -> ebs -> option ebs) (st : ty -> Z -> bool) base ms :
-  Forall (fun m => forall b e, st (snd m) b = false -> rg (snd m) b e = r_ (snd m) b e) ms ->
-  forall rs e, straddles_level st base ms rs = false ->
-  sv_level_g rg base ms rs e = sv_level r_ base ms rs e.
+Lemma members_head_eq (rh rc : ty -> Z -> qtypes -> option qtypes) (st : ty -> Z -> bool) off ms :
+  Forall (fun m => forall o ts, st (snd m) o = false -> rh (snd m) o ts = rc (snd m) o ts) ms ->
+  forall rs sub, straddles_level st off ms rs = false ->
+  cf_members_head rh off ms rs sub = cf_members rc off ms rs sub.
 Proof.
-  induction ms as [|[mk mt] r IH]; intros HF rs e Hs; [destruct rs; reflexivity|].
+  induction ms as [|[mk mt] r IH]; intros HF rs sub Hs; [destruct rs; reflexivity|].
   destruct rs as [|r1 rs]; [reflexivity|].
   inversion HF as [|? ? H1 H2]; subst. cbn [snd] in H1.
-  cbn [sv_level_g sv_level straddles_level] in *.
-  destruct mk as [|w named|].
-  - apply orb_false_elim in Hs as [Hs1 Hs2]. rewrite (H1 _ e Hs1).
-    destruct (r_ mt (base + m_off r1) e); [apply IH; assumption | reflexivity].
-  - apply orb_false_elim in Hs as [Hs1 Hs2].
-    destruct (w =? 0) eqn:E; [apply IH; assumption|].
-    cbn [negb andb] in Hs1. rewrite merge_span_same by lia. apply IH; assumption.
-  - apply orb_false_elim in Hs as [Hs1 Hs2]. rewrite (H1 _ e Hs1).
-    destruct (r_ mt (base + m_off r1) e); [apply IH; assumption | reflexivity].
+  cbn [cf_members_head cf_members straddles_level] in *.
+  destruct (m_bit r1 <? 0).
+  - apply orb_false_elim in Hs as [Hs1 Hs2]. rewrite (H1 _ sub Hs1).
+    destruct (rc mt (m_off r1 + off) sub); [apply IH; assumption | reflexivity].
+  - destruct (m_width r1 =? 0); [apply IH; assumption|].
+    apply orb_false_elim in Hs as [Hs1 Hs2].
+    rewrite qmerge_span_same by lia. apply IH; assumption.
 Qed.
 
-Lemma merge_into_g_eq : forall t base acc, straddles t base = false ->
-  sv_merge_into_g t base acc = sv_merge_into t base acc.
+Lemma classify_fields_head_eq : forall t off ts, straddles t off = false ->
+  classify_fields_head t off ts = classify_fields t off ts.
 Proof.
-  induction t as [k| |lo hi|n el IH|el IH|u ms IH] using ty_ind'; intros base acc Hs; try reflexivity.
-  - cbn [sv_merge_into_g sv_merge_into straddles] in *.
-    destruct (sv_size (sysv_layout el) =? 0); [reflexivity|].
-    revert Hs. generalize (seq 0 (Z.to_nat n)). intros l. generalize (Some acc).
+  induction t as [k| |lo hi|n el IH|el IH|u ms IH] using ty_ind'; intros off ts Hs; try reflexivity.
+  - cbn [classify_fields_head classify_fields straddles] in *.
+    destruct (type_size (c2m_layout el) =? 0); [reflexivity|].
+    revert Hs. generalize (seq 0 (Z.to_nat n)). intros l. generalize (Some ts).
     induction l as [|i l IHl]; intros a Hs; [reflexivity|].
     cbn [existsb] in Hs. apply orb_false_elim in Hs as [Hs1 Hs2].
     cbn [fold_left]. rewrite <- IHl by exact Hs2. f_equal.
     destruct a as [e|]; [apply IH; exact Hs1 | reflexivity].
-  - cbn [sv_merge_into_g sv_merge_into straddles] in *.
-    rewrite (level_g_eq sv_merge_into_g sv_merge_into straddles base ms); [reflexivity| |exact Hs].
-    eapply Forall_impl; [|exact IH]. intros m Hm b e Hb. apply Hm. exact Hb.
+  - cbn [classify_fields_head classify_fields straddles] in *.
+    rewrite (members_head_eq classify_fields_head classify_fields straddles off ms); [reflexivity| |exact Hs].
+    eapply Forall_impl; [|exact IH]. intros m Hm o e Ho. apply Hm. exact Ho.
 Qed.
 
-(* without a straddling bit-field the gcc-faithful specification is the one the C08 theorems use *)
-Theorem sysv_classify_g_eq_lemma : forall t, no_straddle t = true -> sysv_classify_g t = sysv_classify t.
+(* where no bit-field straddles (every declaration without an unnamed bit-field in an under-aligned
+   member aggregate) the code before the fix classified exactly as the repaired code does ... *)
+Theorem classify_head_eq_lemma : forall t, no_straddle t = true -> classify_arg_head t = classify_arg t.
 Proof.
   intros t H. unfold no_straddle in H. apply negb_true_iff in H.
-  unfold sysv_classify_g, sysv_classify. rewrite (merge_into_g_eq t 0 _ H). reflexivity.
+  unfold classify_arg_head. destruct (is_aggregate t) eqn:E; [|reflexivity].
+  unfold classify_arg. rewrite E, (classify_fields_head_eq t 0 _ H). reflexivity.
 Qed.
 
-(* ... so c2mir's classification is gcc's for every well-formed struct/union without a straddling
-   (unnamed) bit-field, padding eightbytes turned into INTEGER *)
-Theorem classify_eq_gcc_partial_lemma : forall t,
+(* ... hence as gcc does *)
+Theorem classify_head_eq_gcc_partial_lemma : forall t,
   wf_ty t = true -> is_agg t = true -> no_straddle t = true ->
-  option_map (map tr) (classify_arg t) = option_map (map pad_int) (sysv_classify_g t).
+  option_map (map tr) (classify_arg_head t) = option_map (map pad_int) (sysv_classify t).
 Proof.
-  intros t Hwf Hagg Hs. rewrite (sysv_classify_g_eq_lemma t Hs).
+  intros t Hwf Hagg Hs. rewrite (classify_head_eq_lemma t Hs).
   apply classify_eq_sysv_total_lemma; assumption.
 Qed.
 
-(* the tree as audited: struct { int i; struct { char c; long : 40; } s; float f; } - gcc INTEGER,
-   INTEGER (%rdi, %rsi); c2mir INTEGER, SSE (%rdi, %xmm0); no padding eightbyte involved *)
+(* the witness: struct { int i; struct { char c; long : 40; } s; float f; } - gcc and the repaired
+   c2mir INTEGER, INTEGER (%rdi, %rsi); the old rule INTEGER, SSE (%rdi, %xmm0); no padding
+   eightbyte involved *)
 Definition straddle_witness : ty :=
   TAgg false [ (MNamed, TBasic KInt);
                (MNamed, TAgg false [ (MNamed, TBasic KChar); (MBits 40 false, TBasic KLong) ]);
                (MNamed, TBasic KFloat) ].
 
-Lemma classify_gcc_refuted_lemma :
+Lemma classify_head_refuted_lemma :
   wf_ty straddle_witness = true /\ is_agg straddle_witness = true /\ no_pad straddle_witness = true /\
   no_straddle straddle_witness = false /\
-  option_map (map tr) (classify_arg straddle_witness) = Some [INTEGER; SSE] /\
-  sysv_classify_g straddle_witness = Some [INTEGER; INTEGER].
+  option_map (map tr) (classify_arg_head straddle_witness) = Some [INTEGER; SSE] /\
+  option_map (map tr) (classify_arg straddle_witness) = Some [INTEGER; INTEGER] /\
+  sysv_classify straddle_witness = Some [INTEGER; INTEGER].
 Proof. vm_compute. auto 10. Qed.
-
